@@ -3,6 +3,7 @@ import z3
 
 from pyvc.contract import Contract
 from pyvc.runner import ContractTask
+from pyvc.automat import AutomatSupport
 from pyvc.values import *   # noqa
 from pyvc import values
 from .common import make_registry, install_trace_funcs, register_classes
@@ -14,7 +15,7 @@ values.NT_DEFS.update({
     "Open": [("seqnum", "int"), ("scid", "int"), ("subprotocol", "str")],
     "Data": [("seqnum", "int"), ("scid", "int"), ("data", "bytes")],
     "Close": [("seqnum", "int"), ("scid", "int")], "Ack": [("resp_seqnum", "int")],
-    "Frame": [("frame", "bytes")],
+    "Frame": [("frame", "bytes")], "Prologue": [], "RelayOk": [], "Handshake": [],
 })
 RECORD = "union[nt[KCM],nt[Ping],nt[Pong],nt[Open],nt[Data],nt[Close],nt[Ack]]"
 U32 = 4294967296
@@ -58,7 +59,7 @@ def regf(exclude=()):
     reg = make_registry()
     install_trace_funcs(reg)
     register_classes(reg, ["wormhole/errors.py", "wormhole/_dilation/connection.py"])
-    for c in CONTRACTS:
+    for c in CONTRACTS + GEN_CONTRACTS:
         if c.target not in exclude:
             reg.contracts[c.target] = c
     reg.boundary["Noise.encrypt"] = noise_encrypt
@@ -125,8 +126,9 @@ CONTRACTS = [
              ensures=[("nothing-yet", "result is None")],
              note="any proper prefix of a frame yields no frame (so fragmentation never produces a truncated frame)"),
     Contract("wormhole/_dilation/connection.py:_Framer._get_expected", props=[PROP],
-             params={"name": "str", "expected": "bytes"}, self_fields={"_buffer": "bytes"}, modifies=["_buffer"],
+             params={"name": "str", "expected": "bytes"}, self_fields={"_buffer": "bytes"}, modifies=["_buffer"], returns="bool",
              raises={"Disconnect": "not expected.startswith(self._buffer) and not self._buffer.startswith(expected)"},
+             ensures_raise={"Disconnect": [("buffer-kept-for-the-log", "self._buffer == old(self._buffer)")]},
              ensures=[("true-consumes-exactly-expected",
                        "implies(result, old(self._buffer) == expected + self._buffer)"),
                       ("false-keeps-buffer", "implies(not result, self._buffer == old(self._buffer) and "
@@ -135,19 +137,32 @@ CONTRACTS = [
                        "implies(not result, expected.startswith(self._buffer) or "
                        "(b'\\n' not in self._buffer and len(self._buffer) < len(expected)))")]),
     Contract("wormhole/_dilation/connection.py:_Framer.parse_prologue", props=[PROP], params={},
-             self_fields={"_buffer": "bytes", "_inbound_prologue": "bytes"}, modifies=["_buffer"],
+             self_fields={"_buffer": "bytes", "_inbound_prologue": "bytes"}, modifies=["_buffer"], returns="opt[nt[Prologue]]",
              raises={"Disconnect": "not self._inbound_prologue.startswith(self._buffer) and "
                                    "not self._buffer.startswith(self._inbound_prologue)"},
+             ensures_raise={"Disconnect": [("buffer-kept", "self._buffer == old(self._buffer)")]},
              ensures=[("token-only-after-exact-prologue",
                        "implies(result is not None, old(self._buffer) == self._inbound_prologue + self._buffer)"),
-                      ("no-token-keeps-buffer", "implies(result is None, self._buffer == old(self._buffer))")]),
+                      ("no-token-keeps-buffer", "implies(result is None, self._buffer == old(self._buffer))"),
+                      ("token-is-a-Prologue", "result is None or isinstance(result, Prologue)"),
+                      ("no-token-only-while-the-prologue-may-still-come",
+                       "implies(result is None, not self._buffer.startswith(self._inbound_prologue) and "
+                       "(self._inbound_prologue.startswith(self._buffer) or "
+                       "(b'\\n' not in self._buffer and len(self._buffer) < len(self._inbound_prologue))))")]),
     Contract("wormhole/_dilation/connection.py:_Framer.parse_relay_ok", props=[PROP], params={},
              self_fields={"_buffer": "bytes", "_expected_relay_handshake": "bytes"}, modifies=["_buffer"],
+             returns="opt[nt[RelayOk]]",
              raises={"Disconnect": "not self._expected_relay_handshake.startswith(self._buffer) and "
                                    "not self._buffer.startswith(self._expected_relay_handshake)"},
+             ensures_raise={"Disconnect": [("buffer-kept", "self._buffer == old(self._buffer)")]},
              ensures=[("token-only-after-exact-reply",
                        "implies(result is not None, old(self._buffer) == self._expected_relay_handshake + self._buffer)"),
-                      ("no-token-keeps-buffer", "implies(result is None, self._buffer == old(self._buffer))")]),
+                      ("no-token-keeps-buffer", "implies(result is None, self._buffer == old(self._buffer))"),
+                      ("token-is-a-RelayOK", "result is None or isinstance(result, RelayOK)"),
+                      ("no-token-only-while-the-reply-may-still-come",
+                       "implies(result is None, not self._buffer.startswith(self._expected_relay_handshake) and "
+                       "(self._expected_relay_handshake.startswith(self._buffer) or "
+                       "(b'\\n' not in self._buffer and len(self._buffer) < len(self._expected_relay_handshake))))")]),
     Contract("lemma:record_roundtrip", props=[PROP], source_module="wormhole/_dilation/connection.py",
              params={"r": RECORD},
              source_text="""
@@ -223,6 +238,138 @@ CONTRACTS = [
 ]
 
 
+# ------------------------------------------------------------------ the inbound loops (generators)
+CON = "wormhole/_dilation/connection.py"
+FRAMER_FIELDS = {"__state": "state", "_buffer": "bytes", "_inbound_prologue": "bytes", "_outbound_prologue": "bytes",
+                 "_expected_relay_handshake": "bytes", "_can_send_frames": "bool", "_transport": "obj[Transport]"}
+# the framer object invariant: frames may be sent exactly once the peer's prologue has been seen
+FRAMER_INV = "in_state(self, 'want_frame') == self._can_send_frames"
+F_RELAY_DONE = "(at_entry(in_state(self, 'want_relay')) and not in_state(self, 'want_relay'))"
+F_PROLOGUE_DONE = "(not at_entry(in_state(self, 'want_frame')) and in_state(self, 'want_frame'))"
+
+GEN_CONTRACTS = [
+    Contract(f"{CON}:_Framer.add_and_parse", props=[PROP], params={"data": "bytes"}, self_fields=FRAMER_FIELDS,
+             requires=[FRAMER_INV], modifies=["__state", "_buffer", "_can_send_frames"],
+             raises={"Disconnect": "not in_state(self, 'want_frame')"},
+             ensures_raise={"Disconnect": [
+                 ("no-frame-was-yielded", "nfr == 0 and wire == b''"),
+                 ("only-when-the-stream-cannot-become-the-expected-handshake",
+                  "ite(in_state(self, 'want_relay'), "
+                  "not self._expected_relay_handshake.startswith(self._buffer) and not self._buffer.startswith(self._expected_relay_handshake), "
+                  "not in_state(self, 'want_frame') and "
+                  "not self._inbound_prologue.startswith(self._buffer) and not self._buffer.startswith(self._inbound_prologue))")]},
+             internal_ensures=[
+                 ("every-byte-accounted-for-in-order", "old(self._buffer) + data == hs + wire + self._buffer"),
+                 ("handshake-bytes-are-exactly-the-expected-reply-and-prologue",
+                  "hs == ite(old(in_state(self, 'want_relay')) and not in_state(self, 'want_relay'), self._expected_relay_handshake, b'') + "
+                  "ite(not old(in_state(self, 'want_frame')) and in_state(self, 'want_frame'), self._inbound_prologue, b'')"),
+                 ("yields-are-one-prologue-token-then-the-frames",
+                  "ny == npro + nfr and npro == ite(not old(in_state(self, 'want_frame')) and in_state(self, 'want_frame'), 1, 0)"),
+                 ("no-frame-before-the-prologue", "in_state(self, 'want_frame') or (nfr == 0 and wire == b'')"),
+                 ("remainder-holds-no-complete-token",
+                  "ite(in_state(self, 'want_frame'), len(self._buffer) < 4 or len(self._buffer) < 4 + be4_value(self._buffer[0:4]), "
+                  "ite(in_state(self, 'want_prologue'), not self._buffer.startswith(self._inbound_prologue), "
+                  "not self._buffer.startswith(self._expected_relay_handshake)))"),
+                 ("remainder-may-still-become-the-expected-handshake",
+                  "ite(in_state(self, 'want_frame'), True, ite(in_state(self, 'want_prologue'), "
+                  "self._inbound_prologue.startswith(self._buffer) or (b'\\n' not in self._buffer and len(self._buffer) < len(self._inbound_prologue)), "
+                  "self._expected_relay_handshake.startswith(self._buffer) or "
+                  "(b'\\n' not in self._buffer and len(self._buffer) < len(self._expected_relay_handshake))))"),
+                 ("own-prologue-sent-exactly-when-the-relay-said-ok",
+                  "len(bcall_names()) == bcalls('write') and bcalls('write') <= 1")],
+             ensures=[("framer-invariant-kept", FRAMER_INV),
+                      ("state-only-advances", "(not old(in_state(self, 'want_frame')) or in_state(self, 'want_frame')) and "
+                                              "(not old(in_state(self, 'want_prologue')) or not in_state(self, 'want_relay'))")],
+             loops={0: {"header": "True",
+                        "ghost_init": {"hs": "b''", "wire": "b''", "nfr": "0", "npro": "0", "ny": "0"},
+                        "ghost_update": {"hs": "hs + handshake_bytes(self, at_iter(state_index(self)))", "wire": "wire + iter_frame_wire()",
+                                         "nfr": "nfr + iter_yields('Frame')", "npro": "npro + iter_yields('Prologue')",
+                                         "ny": "ny + iter_yields()"},
+                        "modifies": [("self", "__state"), ("self", "_buffer"), ("self", "_can_send_frames")],
+                        "body_ensures": [
+                            "iter_yields() == ite(at_iter(in_state(self, 'want_frame')), 1, ite(in_state(self, 'want_frame'), 1, 0))",
+                            "iter_yields() == iter_yields('Frame') + iter_yields('Prologue')",
+                            "iter_yields('Frame') == ite(at_iter(in_state(self, 'want_frame')), 1, 0)",
+                            "bcalls('write') == ite(at_iter(in_state(self, 'want_relay')), 1, 0) and len(bcall_names()) == bcalls('write')",
+                            "bcalls('write') == 0 or bcall_arg('write', 0, 0) == self._outbound_prologue"],
+                        "invariant": [
+                            "at_entry(self._buffer) == hs + wire + self._buffer",
+                            "nfr >= 0 and npro >= 0 and ny == nfr + npro",
+                            "in_state(self, 'want_frame') or (nfr == 0 and wire == b'')",
+                            f"npro == ite({F_PROLOGUE_DONE}, 1, 0)",
+                            f"hs == ite({F_RELAY_DONE}, self._expected_relay_handshake, b'') + "
+                            f"ite({F_PROLOGUE_DONE}, self._inbound_prologue, b'')",
+                            "(not at_entry(in_state(self, 'want_frame')) or in_state(self, 'want_frame')) and "
+                            "(not at_entry(in_state(self, 'want_prologue')) or not in_state(self, 'want_relay'))",
+                            FRAMER_INV]}},
+             note="for ANY chunking: what was buffered plus this chunk == (relay reply)(prologue) ++ be4-framed frames yielded, in "
+                  "order ++ the remainder kept in _buffer; ghost `wire` is the concatenation of be4(len(f)) + f over the Frame "
+                  "tokens in the order they are yielded (read from the yield events); the remainder holds no complete token"),
+]
+
+
+def regf_gen():
+    reg = regf()
+    reg.automat = AutomatSupport()
+    reg.automat.havoc_inputs = True        # a loop body that calls an Automat input may change the state / run its outputs
+    reg.lazy_generators = True             # `for x in gen()` interleaves the two real bodies (pyvc/interp.py: for_generator)
+    reg.check_loop_frame = True            # every location a loop iteration changes must be havocked at the cut
+    _setup_spec(reg)
+    _setup_gen_spec(reg)
+    return reg
+
+
+def _iter_events(it, name):
+    tr = it.ctx.trace
+    start = max([i for i, e in enumerate(tr) if e[0] == "loop-body-start"] + [-1])
+    return [e for e in tr[start + 1:] if e[0] == name]
+
+
+def _setup_gen_spec(reg):
+    sf = reg.spec_funcs
+
+    def iter_yields(it, kind=None):
+        """number of values the generator under verification yielded in the current loop iteration (of the given namedtuple type)"""
+        evs = _iter_events(it, "yield")
+        if kind is not None:
+            kind = it.concrete(kind)
+            evs = [e for e in evs if isinstance(it.force(e[1][0]), VTuple) and it.force(e[1][0]).ntname == kind]
+        return VInt(len(evs))
+
+    sf["iter_yields"] = iter_yields
+
+    def iter_frame_wire(it):
+        """be4(len(f)) + f for every Frame token f yielded in the current iteration, concatenated in yield order"""
+        out = VStr(z3.StringVal(""), "bytes")
+        for e in _iter_events(it, "yield"):
+            v = it.force(e[1][0])
+            if isinstance(v, VTuple) and v.ntname == "Frame":
+                f = v.items[0]
+                out = VStr(z3.Concat(out.z, models_be4(it, z3.Length(f.z)), f.z), "bytes")
+        return out
+
+    sf["iter_frame_wire"] = iter_frame_wire
+
+    def handshake_bytes(it, fr_obj, before):
+        """what a framer state change consumed: the relay reply (want_relay left), the prologue (want_frame entered);
+        `before` is the state index before the change"""
+        fr_obj = it.force(fr_obj)
+        st = fr_obj.fields["__state"].z
+        m = it.reg.automat.machine_of(it.reg.repo_classes[fr_obj.cls])
+        relay, frm = m.index("want_relay"), m.index("want_frame")
+        a = z3.If(z3.And(before.z == relay, st != relay), fr_obj.fields["_expected_relay_handshake"].z, z3.StringVal(""))
+        b = z3.If(z3.And(before.z != frm, st == frm), fr_obj.fields["_inbound_prologue"].z, z3.StringVal(""))
+        return VStr(z3.Concat(a, b), "bytes")
+
+    sf["handshake_bytes"] = handshake_bytes
+    sf["state_index"] = lambda it, o: VInt(it.force(o).fields["__state"].z)
+
+
+def models_be4(it, z):
+    from pyvc import models
+    return models.be4_of(it, z)
+
+
 def regf_lemma():
     return regf(exclude=("wormhole/_dilation/connection.py:parse_record",
                          "wormhole/_dilation/connection.py:encode_record"))
@@ -282,6 +429,8 @@ def tasks():
     out = []
     for c in CONTRACTS:
         out.append(ContractTask(c, _wrap(regf_lemma) if c.target == "lemma:record_roundtrip" else _wrap(regf)))
+    for c in GEN_CONTRACTS:
+        out.append(ContractTask(c, regf_gen))
     return out
 
 
